@@ -1,6 +1,6 @@
 """C06 - reported uncertainties and p-values are coherent with the evaluations (DESIGN 4/C06)
 
-Six exhaustively enumerated families (V, T, F, M: every case additionally under EVERY permutation of
+Seven exhaustively enumerated families (V, T, F, M: every case additionally under EVERY permutation of
 the model order):
 
   V  variance extraction: Result(variances=<scalar|vector|matrix|3-stack>, with/without the two
@@ -28,6 +28,12 @@ the model order):
      reference contrast of the covariance (ceiling: LOWER row); Result.get_errorbars and
      inference_util.get_errorbars agree with get_sem / get_ci.  The same three judges also run on every
      base case of T (and test_all == single-purpose test on F and M).
+     summary() rows (name, mean, SEM, p against zero / ceiling, '< 0.001', 'nan') agree with the accessors
+     (T base cases and X, incl. tiny-variance fills that give p < 0.001 in every column).
+  N  no variance estimates (plain cross-validation, one RDM): means are the NaN-aware means; model_var /
+     get_sem / get_ci / error bars / every t-test entry point of Result and of inference_util report
+     'undefined' (None, NaN) or refuse - never a number; bootstrap / rank-sum tests, summary() and the
+     plain accessors keep agreeing; unknown test types / error-bar strings are refused by every wrapper.
 """
 import itertools
 import sys
